@@ -188,7 +188,9 @@ func planFor(p Prop, tier string) tierPlan {
 	if tier == "thorough" {
 		seeds := 4
 		switch p.ID() {
-		case "C04", "C11", "C09":
+		case "C11":
+			seeds = 1
+		case "C04", "C09":
 			seeds = 2
 		}
 		return tierPlan{seeds: seeds, cap: 3 * 3600}
